@@ -27,5 +27,11 @@ for f in kt["findings"]:
     if (f["property"], f["trigger"]) not in have:
         ko["findings"].append(f)
 open("KNOWN_FINDINGS.json", "w").write(json.dumps(ko, indent=1))
+# evidence files are rewritten by every run: take the slice's file for its own property, ours otherwise
+unmerged = subprocess.run(["git", "diff", "--name-only", "--diff-filter=U"], capture_output=True, text=True).stdout.split()
+for f in unmerged:
+    if f.startswith("evidence/") or f.startswith("seeded/"):
+        side = "--theirs" if f.startswith("evidence/" + own) else "--ours"
+        subprocess.run(["git", "checkout", side, "--", f], check=True)
 subprocess.run(["python3", "tools/gen_manifest.py"], check=True)
 print("resolved; now: git add -A && git commit")
